@@ -54,7 +54,7 @@ def gen_chunk(args):
   from ttconv.time_code import SmpteTimeCode
   rate = Fraction(num, den)
   rec = {"kind": "lab", "n0": n0, "lab": [], "tf": [], "pa": [], "sep": [], "fs": [], "fm": [], "ff": [],
-         "af": [], "ow": [], "on": [], "od": []}
+         "af": [], "ow": [], "on": [], "od": [], "wo": []}
   bad = []
   walk = SmpteTimeCode.from_frames(n0, rate)
 
@@ -88,8 +88,11 @@ def gen_chunk(args):
     mid = Fraction((2 * n + 1) * den, 2 * num)
     rec["fm"].append(pk(SmpteTimeCode.from_seconds(mid, rate), "from_seconds_mid", n))
     rec["ff"].append(pk(SmpteTimeCode.from_seconds(float(mid), rate), "from_seconds_float", n))
+    before = walk.to_temporal_offset()           # the offset is read, the SAME object advanced, the offset read again
     walk.add_frames(1)
     rec["af"].append(pk(walk, "add_frames", n))
+    after = walk.to_temporal_offset()
+    rec["wo"].append(1 if (before == Fraction(n * den, num) and after == Fraction((n + 1) * den, num)) else 0)
     off = tc.to_temporal_offset()
     ow = off.numerator // off.denominator
     fr = off - ow
@@ -196,6 +199,11 @@ def windows(fps, drop, tier, rng, maxn):
   for _ in range(12):
     w.append((rng.randrange(0, maxn - 400), 300))
   w.append((maxn - 300, 300))
+  # labels are plain counters: across the 24 h mark and well beyond it (up to 99 h)
+  w.append((maxn - 40, 120))
+  w.append((2 * maxn - 40, 120))
+  w.append((rng.randrange(maxn, 4 * maxn - 400), 200))
+  w.append((4 * maxn + from_label(3, 9) - 20, 60))
   # merge overlapping
   w.sort()
   merged = []
@@ -370,7 +378,7 @@ def run(ctx):
     maxn = 24 * 3600 * fps - drop * (24 * 60 - 24 * 6)
     if thorough:
       step = 20000
-      wins = [(a, min(step, maxn - a)) for a in range(0, maxn, step)]
+      wins = [(a, min(step, maxn - a)) for a in range(0, maxn, step)] + [(maxn, 200), (2 * maxn - 40, 120), (4 * maxn - 100, 300)]
     else:
       wins = windows(fps, drop, ctx.tier, ctx.rng, maxn)
     for a, l in wins:
